@@ -3,6 +3,15 @@
 package main
 
 import (
+	"fmt"
+	"os"
+	"sync/atomic"
+	"time"
+
+	"github.com/pingcap/failpoint"
+	"github.com/tikv/client-go/v2/txnkv/transaction"
+
+	tikvkv "github.com/tikv/client-go/v2/kv"
 	"github.com/tikv/client-go/v2/verifx/hub"
 	"github.com/tikv/client-go/v2/verifx/vx"
 )
@@ -174,13 +183,463 @@ func c06Scenario(r *vx.Rand) {
 	w.Quiesce(scenarioTimeout)
 }
 
+// thirdParty commits a newer version of the keys through a fresh client (write conflict for a lock call with an older
+// for-update ts, locked-with-conflict in force-lock mode, key exists for an insert).
+func thirdParty(w *hub.World, name string, keys [][]byte, tag int) bool {
+	c := w.NewClient(name)
+	return runAll(w, scenarioTimeout, func() {
+		c.Begin(false, "2pc")
+		for i, k := range keys {
+			c.Set(k, val(3, tag, i))
+		}
+		c.Commit()
+	})
+}
+
+// c06AggRetry: aggressive (fair) locking with retried attempts.  Attempt 1 locks one or two keys, a third party may have
+// committed a newer version of a key after the for-update ts in use (single-key calls run in force-lock mode and answer
+// locked-with-conflict); RetryAggressiveLocking; the retried attempt locks the same keys, other keys or both with a
+// for-update ts drawn from {the old one, the conflict ts, a fresh one} — an old one makes LockKeys fail on its sanity check;
+// a second retry may follow; the stage ends with Done or Cancel, or (nothing pending in the current stage) directly with
+// the end of the transaction; the transaction commits or rolls back.  Whatever the path, no lock may stay.
+func c06AggRetry(r *vx.Rand) {
+	nKeys := 3 + r.Intn(2)
+	keys := keyPool[:nKeys]
+	stores := 1
+	if r.Chance(15) {
+		stores = 3
+	}
+	w := hub.NewWorld(rec, hub.Options{Full: lean, Seed: r.U64(), Splits: pick(r, layoutsOf(1+r.Intn(3))), Stores: stores})
+	defer w.Close()
+	for _, k := range keys {
+		w.TrackKey(k)
+	}
+	if !seed(w, subset(r, keys, 60)) {
+		return
+	}
+	a := w.NewClient("a")
+	step := func(f func()) bool { return runAll(w, scenarioTimeout, f) }
+	if !step(func() { a.Begin(true, pick(r, modes)) }) {
+		return
+	}
+	np := 0
+	held := map[string]bool{} // keys a may hold a lock on: a third party writing them would wait for a
+	inAgg := func() bool { return a.Txn().IsInAggressiveLockingMode() }
+	if r.Chance(30) {
+		// a key locked before the stage starts (the primary is then outside the stage)
+		k := pick(r, keys)
+		if !step(func() { a.LockAt([][]byte{k}, "-", "fresh") }) {
+			return
+		}
+		held[string(k)] = true
+	}
+	if !step(func() { a.AggStart() }) {
+		return
+	}
+	attempts := 2 + r.Intn(2)
+	var prev [][]byte
+	for at := 0; at < attempts; at++ {
+		if at > 0 {
+			// (a LockKeys call with more than one key leaves fair locking by itself: the statement then starts a new stage)
+			if !step(func() {
+				if inAgg() {
+					a.AggRetry()
+					rec.Count("c06:agg:retry")
+				} else {
+					a.AggStart()
+					rec.Count("c06:agg:restart")
+				}
+			}) {
+				return
+			}
+		}
+		// the keys of this attempt: overlapping with the previous attempt, disjoint from it, or both
+		var ks [][]byte
+		switch {
+		case at == 0 || len(prev) == 0:
+			ks = [][]byte{pick(r, keys)}
+		case r.Chance(50):
+			ks = [][]byte{pick(r, prev)}
+		case r.Chance(50):
+			ks = [][]byte{pick(r, keys)}
+		default:
+			ks = [][]byte{pick(r, prev), pick(r, keys)}
+		}
+		if r.Chance(25) {
+			ks = append(ks, pick(r, keys))
+		}
+		var free [][]byte
+		for _, k := range ks {
+			if !held[string(k)] {
+				free = append(free, k)
+			}
+		}
+		if len(free) > 0 && r.Chance(75) {
+			// a newer version of one of them, committed after every timestamp the transaction holds
+			np++
+			if !thirdParty(w, fmt.Sprintf("p%d", np), [][]byte{pick(r, free)}, np) {
+				return
+			}
+		}
+		for _, k := range ks {
+			held[string(k)] = true
+		}
+		sel := pick(r, []string{"start", "fresh"})
+		if at > 0 {
+			sel = pick(r, []string{"last", "conflict", "fresh", "fresh"})
+		}
+		rec.Count("c06:agg:fu:" + sel)
+		calls := [][][]byte{ks}
+		if len(ks) > 1 && r.Bool() {
+			// one call per key: every call runs in force-lock mode
+			calls = nil
+			for _, k := range ks {
+				calls = append(calls, [][]byte{k})
+			}
+		}
+		failed := false
+		for _, c := range calls {
+			c := sortedKeys(c)
+			fl := pick(r, []string{"-", "-", "r", "n", "rn", "c"})
+			res := ""
+			if !step(func() { res = a.LockAt(c, fl, sel) }) {
+				return
+			}
+			if res != "ok" {
+				failed = true
+				rec.Count("c06:agg:lock-failed:" + res)
+				break
+			}
+		}
+		prev = ks
+		if failed && r.Chance(50) {
+			break
+		}
+	}
+	end := r.Intn(4)
+	commit := r.Chance(55)
+	if !step(func() {
+		if inAgg() {
+			switch {
+			case end <= 1 && a.AggKeys() == 0:
+				// nothing pending in the current stage: the end of the transaction leaves the stage itself
+				rec.Count("c06:agg:end:direct")
+			case end%2 == 0:
+				a.AggDone()
+				rec.Count("c06:agg:end:done")
+			default:
+				a.AggCancel()
+				rec.Count("c06:agg:end:cancel")
+			}
+		}
+		if commit {
+			for i, k := range prev {
+				// (still inside the stage = the direct end: nothing more is locked, Commit leaves the stage)
+				if !inAgg() && r.Chance(60) && a.Lock([][]byte{k}, "-") == "ok" {
+					a.Set(k, val(0, 1, i))
+				}
+			}
+			a.Commit()
+		} else {
+			a.Rollback()
+		}
+	}) {
+		return
+	}
+	w.Quiesce(scenarioTimeout)
+}
+
+// aggExpireScenario: fair locking where the locks of the previous attempt may have EXPIRED before the retry.  The ttl manager
+// is stalled (failpoint doNotKeepAlive) and ManagedLockTTL is a few tens of milliseconds; attempt 1 locks k (and returns its
+// value); then more than a ttl passes on the wall clock and on the virtual clock — or not (control) —, a foreign writer
+// resolves the expired lock and commits a newer value of k — or not —; RetryAggressiveLocking; attempt 2 locks k again, asking
+// for the same or less information (so that the client may answer from what attempt 1 cached).  Oracles: the locking read
+// returns the newest committed value at its for-update ts; the store holds the transaction's lock on every key the call
+// reported as locked (`audit held`); no lock stays after the end.  (C01 / C06; the judge is the same for every hub check.)
+func aggExpireScenario(r *vx.Rand) {
+	ttl := uint64(20 + r.Intn(15))
+	old := atomic.SwapUint64(&transaction.ManagedLockTTL, ttl)
+	defer atomic.StoreUint64(&transaction.ManagedLockTTL, old)
+	must(failpoint.Enable("tikvclient/doNotKeepAlive", "return"))
+	defer failpoint.Disable("tikvclient/doNotKeepAlive")
+	keys := keyPool[:3+r.Intn(2)]
+	w := hub.NewWorld(rec, hub.Options{Full: lean, Seed: r.U64(), Splits: pick(r, layoutsOf(1+r.Intn(3)))})
+	defer w.Close()
+	for _, k := range keys {
+		w.TrackKey(k)
+	}
+	if !seed(w, subset(r, keys, 75)) {
+		return
+	}
+	a := w.NewClient("a")
+	step := func(f func()) bool { return runAll(w, scenarioTimeout, f) }
+	if !step(func() { a.Begin(true, pick(r, modes)) }) {
+		return
+	}
+	k := pick(r, keys)
+	if r.Chance(25) {
+		// the primary is another key, locked before the stage
+		var p []byte
+		for p = pick(r, keys); string(p) == string(k); p = pick(r, keys) {
+		}
+		if !step(func() { a.LockAt([][]byte{p}, "-", "fresh") }) {
+			return
+		}
+	}
+	fl1 := pick(r, []string{"r", "r", "rn", "c", "-"})
+	res := ""
+	if !step(func() {
+		a.AggStart()
+		res = a.LockAt([][]byte{k}, fl1, "fresh")
+		if res == "ok" {
+			w.AuditHeld(a, [][]byte{k})
+		}
+	}) {
+		return
+	}
+	expire := r.Chance(70)
+	if expire {
+		time.Sleep(time.Duration(ttl+5+uint64(r.Intn(10))) * time.Millisecond)
+		w.AdvanceClock(int64(3*ttl) + int64(r.Intn(200)))
+		rec.Count("c06:agg-expire:ttl-passed")
+		if r.Chance(80) {
+			// the foreign writer meets the expired lock, resolves it and commits a newer value
+			b := w.NewClient("b")
+			pessB := r.Bool()
+			if !step(func() {
+				b.Begin(pessB, "2pc")
+				if !pessB || b.Lock([][]byte{k}, "-") == "ok" {
+					b.Set(k, val(1, 0, 0))
+					b.Commit()
+				} else {
+					b.Rollback()
+				}
+			}) {
+				return
+			}
+			rec.Count("c06:agg-expire:foreign-writer")
+		}
+	}
+	// the retry asks for the same or less
+	fl2 := fl1
+	if r.Chance(30) {
+		fl2 = map[string]string{"r": "-", "rn": "n", "c": "-", "-": "-"}[fl1]
+	}
+	if r.Chance(15) {
+		fl2 = pick(r, []string{"r", "c"})
+	}
+	commit := r.Chance(70)
+	if !step(func() {
+		a.AggRetry()
+		res = a.LockAt([][]byte{k}, fl2, "fresh")
+		if res == "ok" {
+			w.AuditHeld(a, [][]byte{k})
+		}
+		if a.Txn().IsInAggressiveLockingMode() {
+			if res == "ok" || r.Bool() {
+				a.AggDone()
+			} else {
+				a.AggCancel()
+			}
+		}
+		if res == "ok" {
+			w.AuditHeld(a, [][]byte{k})
+		}
+		if commit {
+			if res == "ok" {
+				a.Set(k, val(0, 3, 0))
+			}
+			a.Commit()
+		} else {
+			a.Rollback()
+		}
+	}) {
+		return
+	}
+	w.Quiesce(scenarioTimeout)
+}
+
+// bigKey makes the i-th key of a family of long keys sharing a one-byte prefix (they sort by i).
+func bigKey(prefix byte, i, size int) []byte {
+	k := make([]byte, size)
+	k[0], k[1] = prefix, byte(i)
+	for j := 2; j < size; j++ {
+		k[j] = byte(0x30 + (i+j)%10)
+	}
+	return k
+}
+
+// c06Batches: ONE pessimistic LockKeys call whose keys are split into several PessimisticLock requests inside one region
+// (the key bytes add up to more than the commit batch size: ~1 KB keys at the default 16 KB, or short keys with
+// kv.TxnCommitBatchSize lowered) or over two regions; a third party has committed a newer version of one or two of the keys
+// (write conflict for the batch holding it) or some keys exist and the call inserts (key exists); the primary is in the
+// call (its batch goes first) or was locked before.  The call fails after other batches succeeded; the transaction goes on
+// with other keys or not, and commits or rolls back.  No lock of it may stay.
+func c06Batches(big bool, r *vx.Rand) {
+	var keys [][]byte
+	n := 6 + r.Intn(8)
+	if big {
+		n = 18 + r.Intn(20)
+		size := 600 + r.Intn(500)
+		for n*size <= 17*1024 {
+			n++
+		}
+		for i := 0; i < n; i++ {
+			keys = append(keys, bigKey(0x6b, i, size))
+		}
+		rec.Count("c06:batches:big-keys")
+	} else {
+		for i := 0; i < n; i++ {
+			keys = append(keys, []byte{0x6b, byte(0x30 + i), 0x2e, 0x2e, 0x2e, 0x2e, 0x2e, 0x2e})
+		}
+		old := tikvkv.TxnCommitBatchSize.Load()
+		tikvkv.TxnCommitBatchSize.Store(uint64(16 + r.Intn(48)))
+		defer tikvkv.TxnCommitBatchSize.Store(old)
+		rec.Count("c06:batches:small-batch-size")
+	}
+	other := [][]byte{{0x61}, {0x7a}} // before and behind the family
+	var splits [][]byte
+	regions := 1
+	if r.Chance(30) {
+		regions = 2
+		splits = [][]byte{keys[1+r.Intn(n-1)]}
+	}
+	rec.Count(fmt.Sprintf("c06:batches:regions:%d", regions))
+	w := hub.NewWorld(rec, hub.Options{Full: lean, Seed: r.U64(), Splits: splits})
+	defer w.Close()
+	for _, k := range other {
+		w.TrackKey(k)
+	}
+	insert := r.Chance(30)
+	existing := subset(r, keys, 40)
+	if insert {
+		existing = subset(r, keys, 8)
+	}
+	if !seed(w, existing) {
+		return
+	}
+	a := w.NewClient("a")
+	step := func(f func()) bool { return runAll(w, scenarioTimeout, f) }
+	if !step(func() { a.Begin(true, pick(r, modes)) }) {
+		return
+	}
+	if r.Chance(35) {
+		// the primary is locked before the big call: none of its batches is the primary batch
+		if !step(func() { a.LockAt([][]byte{other[0]}, "-", "fresh") }) {
+			return
+		}
+		rec.Count("c06:batches:primary-outside")
+	}
+	// the keys of the call: all of the family or a long run of it
+	lo := 0
+	if r.Chance(30) {
+		lo = r.Intn(n / 3)
+	}
+	call := keys[lo:]
+	sel := "fresh"
+	if !insert || r.Bool() {
+		// newer versions of one or two keys of the call (anywhere: first batch, a later batch, the last key)
+		var cs [][]byte
+		for i := 1 + r.Intn(2); i > 0; i-- {
+			cs = append(cs, call[r.Intn(len(call))])
+		}
+		if r.Chance(70) && !thirdParty(w, "p1", sortedKeys(cs), 1) {
+			return
+		}
+		// the for-update ts of the call: the one the transaction already has (older than the third party's commit) or a fresh one
+		sel = pick(r, []string{"last", "last", "fresh"})
+	}
+	res := ""
+	if !step(func() {
+		if insert {
+			// the pessimistic INSERT of many rows: staged writes that presume the keys do not exist, then one lock call
+			mb := a.Txn().GetMemBuffer()
+			h := mb.Staging()
+			for i, k := range call {
+				mb.SetWithFlags(k, []byte{0x33, byte(i)}, tikvkv.SetPresumeKeyNotExists, tikvkv.SetNewlyInserted)
+			}
+			res = a.LockAt(call, "-", sel)
+			if res != "ok" {
+				mb.Cleanup(h)
+				return
+			}
+			mb.Release(h)
+			for i, k := range call {
+				a.Insert(k, []byte{0x33, byte(i)})
+			}
+			return
+		}
+		res = a.LockAt(call, pick(r, []string{"-", "-", "n", "r"}), sel)
+	}) {
+		return
+	}
+	rec.Count("c06:batches:lock:" + res)
+	cont := r.Chance(40)
+	commit := r.Chance(60)
+	if !step(func() {
+		if cont {
+			// the transaction goes on with other keys
+			if a.Lock([][]byte{other[1]}, "-") == "ok" {
+				a.Set(other[1], val(0, 2, 0))
+			}
+			if res == "ok" && !insert {
+				for i, k := range call {
+					if i%5 == 0 {
+						a.Set(k, val(0, 2, i))
+					}
+				}
+			}
+		}
+		if commit {
+			a.Commit()
+		} else {
+			a.Rollback()
+		}
+	}) {
+		return
+	}
+	w.Quiesce(scenarioTimeout)
+}
+
 func runC06() {
 	n := 3000
 	if run.Thorough() {
 		n = 46000
 	}
 	n = scaled(n)
+	expireEvery, bigEvery := 20, 60
+	if run.Thorough() {
+		expireEvery = 60 // the family sleeps: thinned out in the thorough tier
+		bigEvery = 240   // ~300 KB of trace per scenario
+	}
 	for i := 0; i < n; i++ {
-		c06Scenario(rnd.Fork())
+		t0 := time.Now()
+		fam := "programs"
+		if i%6 == 4 {
+			fam = "agg"
+		} else if i%6 == 5 {
+			fam = "batches"
+		}
+		switch {
+		case i%expireEvery == 10:
+			fam = "agg-expire"
+			aggExpireScenario(rnd.Fork())
+			rec.Count("c06:family:agg-expire")
+		case i%6 == 4:
+			c06AggRetry(rnd.Fork())
+			rec.Count("c06:family:agg-retry")
+		case i%6 == 5:
+			c06Batches(i%bigEvery == 5, rnd.Fork())
+			rec.Count("c06:family:batches")
+		default:
+			c06Scenario(rnd.Fork())
+			rec.Count("c06:family:programs")
+		}
+		if d := time.Since(t0); d > 2*time.Second {
+			rec.Count("c06:slow-scenario:" + fam)
+			if os.Getenv("HUBRUN_TIMING") != "" {
+				fmt.Fprintf(os.Stderr, "slow scenario %d (%s): %v\n", i, fam, d)
+			}
+		}
 	}
 }
